@@ -32,4 +32,35 @@ func init() {
 		Technique: "path-sensitive effect analysis after incomplete-token branches (collect/getUintN results, trimmed-chunk emptiness), park-field vs position-field classification, stutter-freedom",
 		DesignRef: "DESIGN.md section 2 R3, R2; section 3 C02",
 	})
+	register(&PropSpec{
+		ID:    "C10",
+		Level: "other",
+		Decided: "the consumer is left in the same state by an extended event as by its expansion: every native extended implementation (cborl 15 typed arrays, ubjson 15 typed arrays + 14 typed maps, json OnStringRef/OnKeyRef) has net delta 0 on every nesting counter of the encoder on every success path (R6), exactly what the start..finish expansion sums to; number-event forwarders keep the number class (R12c).",
+		NotDecided: "that the decoded value of the native (typed/packed) form equals that of the expansion; element markers chosen for value ranges (see C01/C07 R5).",
+		Assumptions: []string{"the Visitor contract delta table (+1 start, -1 finish, 0 otherwise) is the oracle"},
+		TrustedBase: baseTrusted,
+		Rules: []RuleRun{
+			{"R6", R6()},
+			{"R12", R12},
+		},
+		LevelText: "Structural necessary condition decided on every path of ~190 event methods: a non-zero net effect of an extended event on a nesting stack corrupts whatever is written next (the property's 'consumer is left in the same state' clause), for every history, which fixtures do not compose.",
+		Technique: "interprocedural stack-delta path analysis on SSA (push/pop effect summaries per success path), sibling agreement of event methods against the Visitor contract table",
+		DesignRef: "DESIGN.md section 2 R6, R12; section 3 C10",
+	})
+	register(&PropSpec{
+		ID:    "C17",
+		Level: "other",
+		Decided: "completing a document returns every nesting stack to its idle depth: encoders - every event moves every nesting counter by its contract delta, so a balanced stream sums to 0 (R6); ubjson parser - every completion path of a container handler pops exactly what the header pushed, element type included, siblings agree (R7); every parser stack that is pushed is popped (R7); the decoders' window advances by what was consumed (R8 ADVANCE); the unfolder's Reset re-initialises every stack it owns and json.Parse resets its token state (R15).",
+		NotDecided: "equality of outputs over histories; closures in the fold registry that capture mutable state (lastType/lastVisitor caches, ExpectObjVisitor.depth) being reset per call; per-type caches keyed correctly (registry key).",
+		Assumptions: []string{"recursive value dispatchers (execStep/stepValue) are balanced by induction over the nesting depth"},
+		TrustedBase: baseTrusted,
+		Rules: []RuleRun{
+			{"R6", R6()},
+			{"R7", R7},
+			{"R8", R8("json", "cborl", "ubjson")},
+		},
+		LevelText: "Structural necessary conditions for 'idle depth after every complete document', decided on all paths of the event methods and container handlers. State leaking from one document to the next only shows on a later, differently shaped document - a property of histories; the delta/completion-vector argument covers all histories by induction over a well-formed stream.",
+		Technique: "stack-delta path analysis with interprocedural summaries (encoders: contract delta per event; ubjson parser: completion vectors per container handler, sibling agreement), push/pop reachability",
+		DesignRef: "DESIGN.md section 2 R6, R7, R15; section 3 C17",
+	})
 }
